@@ -8,7 +8,8 @@ from vf.common import cls_st, mk, attempt, is_raised, CLASSES, MUTABLE, cls_of, 
 from vf import codecs, files
 from vf.codecs import canon, encode
 
-RULE = ("cases = (dtype, stated length valid or invalid, value at / just inside / just outside each limit (widths 1..130 so 63/64/65 are hit), route); "
+RULE = ("cases = (dtype, stated length valid or invalid, value at / just inside / just outside each limit (widths 1..130 so 63/64/65 are hit), route), in a third of the integer cases preceded by 1..3 preludes that use the same value with a wider / scaled / "
+        "other-sign dtype, at the limits, through tokens, Dtype objects and Arrays (the verdict must not depend on them); "
         "text digits with one invalid character or a width that disagrees with the stated length; byte/bitarray/BytesIO/file sources with (offset, length) "
         "windows inside, at and beyond the data and negative. Oracle = total classifier fits(dtype, length, value) -> bits | REJECT. REJECT => ValueError "
         "(CreationError) and an existing target unchanged; otherwise success with exactly the classifier's bits. Non-trivial = value within 1 of a limit, "
